@@ -178,6 +178,37 @@ func TestC31(t *testing.T) {
 		srcs = append(srcs, src{fmt.Sprintf("rand%d", i), id})
 	}
 	parsedOK := 0
+	// every third source hello is also checked in the form another stack would send it: with the
+	// signalling suites TLS_EMPTY_RENEGOTIATION_INFO_SCSV (0x00ff) and/or TLS_FALLBACK_SCSV (0x5600)
+	// in the cipher-suite list (harness-encoded copy; still a valid ClientHello)
+	type variant struct {
+		name string
+		f    func(raw []byte) []byte
+	}
+	withSuites := func(extra ...uint16) func(raw []byte) []byte {
+		return func(raw []byte) []byte {
+			ch, err := wire.ParseClientHello(raw)
+			if err != nil {
+				return nil
+			}
+			c2 := *ch
+			c2.Suites = append(append([]uint16(nil), ch.Suites...), extra...)
+			return marshalCH(&c2, ch.Exts, ch.HasExts)
+		}
+	}
+	variants := []variant{{"", nil}, {"+SCSV", withSuites(0x00ff)}, {"+FALLBACK", withSuites(0x5600)}, {"+SCSV+FALLBACK", withSuites(0x00ff, 0x5600)}}
+	var expanded []src
+	var expandedVar []variant
+	for i, sc := range srcs {
+		expanded = append(expanded, sc)
+		expandedVar = append(expandedVar, variants[0])
+		if i%3 == 0 {
+			v := variants[1+(i/3)%3]
+			expanded = append(expanded, src{sc.name + v.name, sc.id})
+			expandedVar = append(expandedVar, v)
+		}
+	}
+	srcs = expanded
 	for i, s := range srcs {
 		cfg := &tls.Config{ServerName: []string{"example.test", "x.y.z.example.test", ""}[i%3], OmitEmptyPsk: true, InsecureSkipVerify: true}
 		if i%5 == 0 {
@@ -203,6 +234,12 @@ func TestC31(t *testing.T) {
 				r.Note("build " + s.name + ": " + err.Error())
 				continue
 			}
+		}
+		if expandedVar[i].f != nil {
+			if raw = expandedVar[i].f(raw); raw == nil {
+				continue
+			}
+			r.Count("hellos_with_signalling_suites", 1)
 		}
 		ch, err := wire.ParseClientHello(raw)
 		if err != nil {
